@@ -62,7 +62,8 @@ B(x) == IF x THEN 1 ELSE 0
 HdrOf == [root |-> Root, tagged |-> B(~conf.tgtByDigest), faultfree |-> B(faults = 0 /\ ~ctxC /\ ~crashed),
           force |-> B(conf.force), referrers |-> B(conf.referrers), dtags |-> B(conf.dtags),
           inclext |-> B(conf.inclext), fast |-> B(conf.fast),
-          mountok |-> B(conf.mount /\ conf.pair = "samereg"), samerepo |-> B(SameRepo)]
+          mountok |-> B(conf.mount /\ conf.pair = "samereg"), samerepo |-> B(SameRepo),
+          transient |-> B(faults > 0 /\ faults = retries /\ ~ctxC /\ ~crashed)]
 PSel(k) == B((k[2] \in {"entry", "bentry", "uentry"} /\ conf.plats) => k[3] = "linux/amd64")
 PEdges == UNION {{[p |-> m, c |-> KidsSeq(m)[j][1], role |-> KidsSeq(m)[j][2], psel |-> PSel(KidsSeq(m)[j]), hosted |-> 1] :
                   j \in 1..Len(KidsSeq(m))} : m \in Mans}
@@ -90,6 +91,8 @@ InvFb == \A p \in fbl : p[2] \in tm
 InvC03 == (ret = "ok" /\ FaultFree) => P!Complete(PCur, PInit0, TRUE)
 \* C14 when the copy returned ok without faults
 InvC14 == (ret = "ok" /\ FaultFree) => P!First(P!C14Checks(PCur)) = ""
+\* ... and no source GET of a blob the target had when the only faults were transient ones
+InvC14T == (ret = "ok" /\ faults > 0 /\ faults = retries /\ ~ctxC /\ ~crashed) => P!First(P!C14TChecks(PCur)) = ""
 \* an error result leaves the requested tag alone unless the final write was made
 InvFailTag == (ret = "err" /\ ~tagMoved /\ ~conf.tgtByDigest) => TagOfT("T") = P!TagOf(PInit0, "T")
 \* structural sanity of (D)
